@@ -54,7 +54,7 @@ def build(cell):
         return pw.DWTInverse(wave=cell['wave'], mode=cell['mode'])
 
 
-def make_pyramid(cell, kind, seed, batch=None):
+def make_pyramid(cell, kind, seed, batch=None, full=False):
     """-> (yl, [yh]) torch float64"""
     import torch
     lo, det = pyramid_shapes(cell)
@@ -62,7 +62,7 @@ def make_pyramid(cell, kind, seed, batch=None):
     if kind == 'impulse':
         sizes = [int(np.prod(lo))] + [int(np.prod(band + d)) for d in det]
         n = sum(sizes)
-        if n <= 400:
+        if n <= 400 or full:
             eye = torch.eye(n, dtype=torch.float64)
         else:       # long filters blow the pyramid up: a seeded sample of 96 coefficient positions
             pos = torch.randperm(n, generator=util.gen(seed, 'pos', str(cell)))[:96]
